@@ -19,6 +19,13 @@ for d in sorted(glob.glob(os.path.join(V, "seeded", "C*"))):
     if rc != 0:
         rc, out = sh(["git", "apply", "-3", os.path.join(d, "patch.diff")], cwd=wt)
     if rc != 0:
+        # a hand-rebased copy of the same change (stored next to the original when later repairs moved the context)
+        for alt in sorted(glob.glob(os.path.join(d, "patch-rebased*.diff")), reverse=True):
+            sh(["git", "checkout", "--", "."], cwd=wt)
+            rc, out2 = sh(["git", "apply", alt], cwd=wt)
+            if rc == 0:
+                res["used"] = os.path.basename(alt); break
+    if rc != 0:
         res["status"] = "patch-no-longer-applies-to-HEAD"; res["detail"] = out[-300:]
     else:
         t = time.time()
